@@ -322,6 +322,11 @@ func (i *IRCServer) deleteSessionLocked(s *Session, msgid uint64) {
 func (i *IRCServer) sessionExpiration() time.Duration {
 	i.ConfigMu.RLock()
 	defer i.ConfigMu.RUnlock()
+	if i.Config.SessionExpiration == 0 {
+		// The config does not set SessionExpiration at all. Use the default,
+		// like the compaction does, instead of expiring every session.
+		return time.Duration(config.DefaultConfig.SessionExpiration)
+	}
 	return time.Duration(i.Config.SessionExpiration)
 }
 
